@@ -53,7 +53,7 @@ static FILE * out;
 static int first_in_call, first_call;
 
 /* per input call capture */
-static unsigned char wbuf[1 << 16];
+static unsigned char wbuf[1 << 18];
 static size_t wlen;
 static int nflush;
 static int errv[256], nerr;
